@@ -496,6 +496,84 @@ theorem e2e_outcome_eq_spec (ctx : Ctx) (op : Operation) (node : Node) (paths : 
       imRequest op flag tr paths (expected ctx op node paths) := by
   rw [expand_at_bound_eq_expected ctx op node paths hn hwf hc]
 
+/-! ## chunked Write actions: the timed gate and the timed-only mark hold per chunk -/
+
+/-- every outcome of a chunked Write is the outcome of one chunk, judged with that chunk's own flag
+at that chunk's own arrival time -/
+theorem imWriteChunks_mem {answers : Bool → List Path → List Out} {timeout : Option Nat} :
+    ∀ (chunks : List Chunk) (el : Nat) (o : Outcome), o ∈ imWriteChunks answers timeout el chunks →
+    ∃ pre c post now, chunks = pre ++ c :: post ∧ now = el + (pre.map (·.delay)).sum + c.delay ∧
+      o = imRequest .write c.flag (timeout.map (fun t => (t, now))) c.paths (answers c.flag c.paths)
+  | [], _, _, h => by simp [imWriteChunks] at h
+  | c :: rest, el, o, h => by
+    unfold imWriteChunks at h
+    simp only at h
+    have here : o = imRequest .write c.flag (timeout.map (fun t => (t, el + c.delay))) c.paths (answers c.flag c.paths) →
+        ∃ pre c' post now, c :: rest = pre ++ c' :: post ∧ now = el + (pre.map (·.delay)).sum + c'.delay ∧
+          o = imRequest .write c'.flag (timeout.map (fun t => (t, now))) c'.paths (answers c'.flag c'.paths) :=
+      fun ho => ⟨[], c, rest, el + c.delay, rfl, by simp, ho⟩
+    split at h
+    · exact here (by simpa using h)
+    · rcases List.mem_cons.mp h with h | h
+      · exact here h
+      · obtain ⟨pre, c', post, now, h1, h2, h3⟩ := imWriteChunks_mem rest (el + c.delay) o h
+        refine ⟨c :: pre, c', post, now, by rw [h1]; rfl, ?_, h3⟩
+        simp only [List.map_cons, List.sum_cons]
+        omega
+
+/-- **Timed-only elements act only inside a timed interaction that has not expired — per chunk.**
+In a chunked Write action (any number of `WriteRequest` messages, each with its own requester-chosen
+`TimedRequest` flag, the clock moving between them), an effect on an element whose declaration is
+timed-only implies that *the chunk that carried it* had the flag set, that a TimedRequest preceded
+the action, and that the time elapsed *when that chunk arrived* was within the timeout. -/
+theorem chunked_write_timed_only_live (ctx : Ctx) (node : Node) (timeout : Option Nat)
+    (chunks : List Chunk) (fuel : Nat) (o : Outcome)
+    (ho : o ∈ imWriteChunks (fun flag ps => expand { ctx with timed := flag } .write node ps fuel) timeout 0 chunks)
+    (t : Nat × Nat × Nat) (ht : t ∈ o.effects) :
+    ∃ pre c post, chunks = pre ++ c :: post ∧ ∃ e ∈ node, e.id = t.1 ∧ ∃ cl ∈ e.clusters, cl.id = t.2.1 ∧
+      (contains (attrPerms cl t.2.2) Consts.accTimedOnly = true →
+        c.flag = true ∧ ∃ T, timeout = some T ∧ (pre.map (·.delay)).sum + c.delay ≤ T) := by
+  obtain ⟨pre, c, post, now, h1, h2, h3⟩ := imWriteChunks_mem chunks 0 o ho
+  subst h3
+  obtain ⟨e, he, hid, cl, hcl, hci, himp⟩ :=
+    e2e_timed_only_live { ctx with timed := c.flag } .write node c.paths fuel
+      (timeout.map (fun t => (t, now))) (by simp) t ht
+  refine ⟨pre, c, post, h1, e, he, hid, cl, hcl, hci, fun hto => ?_⟩
+  simp only [reduceCtorEq, if_false] at himp
+  obtain ⟨hf, T, el, htr, hle⟩ := himp hto
+  refine ⟨hf, ?_⟩
+  cases timeout with
+  | none => simp at htr
+  | some T' =>
+    simp only [Option.map_some, Option.some.injEq, Prod.mk.injEq] at htr
+    obtain ⟨rfl, rfl⟩ := htr
+    exact ⟨T', rfl, by omega⟩
+
+/-- a chunk whose gate is closed has no effect, and no later chunk is processed -/
+theorem chunked_write_stops_at_closed_gate (answers : Bool → List Path → List Out) (timeout : Option Nat)
+    (el : Nat) (c : Chunk) (rest : List Chunk)
+    (hg : timedGate c.flag timeout (el + c.delay) ≠ .proceed) :
+    ∃ o, imWriteChunks answers timeout el (c :: rest) = [o] ∧ o.effects = [] ∧ o.top.isSome = true := by
+  have h := e2e_gate_closed_no_effect .write c.flag (timeout.map (fun t => (t, el + c.delay))) c.paths
+    (answers c.flag c.paths) (by simp) (by
+      cases timeout with
+      | none => simpa [timedGate] using hg
+      | some T => simpa using hg)
+  refine ⟨_, ?_, h.1, h.2.2⟩
+  unfold imWriteChunks
+  simp only [h.2.2, if_true]
+
+/-- in scope of `C06_full` the outcome of every chunk is the specification's -/
+theorem chunked_write_eq_spec (ctx : Ctx) (node : Node) (timeout : Option Nat) (chunks : List Chunk)
+    (hn : nodeWF node = true) (hwf : WF ctx.fabrics) (hc : CanonicalPrivs ctx.fabrics) :
+    imWriteChunks (fun flag ps => expand { ctx with timed := flag } .write node ps (fuelBound .write node ps)) timeout 0 chunks =
+      imWriteChunks (fun flag ps => expected { ctx with timed := flag } .write node ps) timeout 0 chunks := by
+  have : (fun (flag : Bool) (ps : List Path) => expand { ctx with timed := flag } .write node ps (fuelBound .write node ps)) =
+      (fun flag ps => expected { ctx with timed := flag } .write node ps) := by
+    funext flag ps
+    exact expand_at_bound_eq_expected { ctx with timed := flag } .write node ps hn hwf hc
+  rw [this]
+
 /-! ## events -/
 
 /-- the full statement for event paths: the answer is the specification's list -/
@@ -676,5 +754,20 @@ example : (imRequest .write true (some (100, 101)) [conc 1 6 1] []).top = some "
     (imRequest .write true none [conc 1 6 1] []).top = some "TimedRequestMisMatch" ∧
     (imRequest .read false none [{ endpoint := none, cluster := none, leaf := some 0 }] []).top = some "InvalidAction" := by
   decide
+
+/-- chunked write on the demo node (attribute 1/6/1 is timed-only): an honest in-time chunk 2 acts;
+a chunk 2 that claims the flag without a TimedRequest, or that arrives after the window closed, is
+refused with the request-level status and has no effect -/
+def demoCtxM (timed : Bool) : Ctx := { demoCtx timed with fabrics := demoAcl }
+example :
+    (imWriteChunks (fun flag ps => expand (demoCtxM flag) .write demoNode ps 10) (some 100) 0
+      [{ flag := true, delay := 10, paths := [conc 1 6 0] }, { flag := true, delay := 20, paths := [conc 1 6 1] }]).map (·.effects)
+      = [[], [(1, 6, 1)]] ∧
+    (imWriteChunks (fun flag ps => expand (demoCtxM flag) .write demoNode ps 10) none 0
+      [{ flag := false, delay := 0, paths := [conc 1 6 0] }, { flag := true, delay := 0, paths := [conc 1 6 1] }]).map (·.top)
+      = [none, some "TimedRequestMisMatch"] ∧
+    (imWriteChunks (fun flag ps => expand (demoCtxM flag) .write demoNode ps 10) (some 100) 0
+      [{ flag := true, delay := 10, paths := [conc 1 6 0] }, { flag := true, delay := 91, paths := [conc 1 6 1] }]).map (·.top)
+      = [none, some "Timeout"] := by decide
 
 end C06
